@@ -1,0 +1,32 @@
+//go:build verif
+
+package main
+
+import (
+	"fmt"
+	"os"
+)
+
+// With the build tag "verif", `gostatsd --verif-dump-config <normal flags>` resolves the configuration
+// exactly as a normal start-up does (setupConfiguration + constructServer), prints the settings the
+// verification harness compares, and exits without starting the server.
+func init() {
+	if len(os.Args) < 2 || os.Args[1] != "--verif-dump-config" {
+		return
+	}
+	os.Args = append(os.Args[:1], os.Args[2:]...)
+	v, _, err := setupConfiguration()
+	if err != nil {
+		fmt.Println("ERR", err)
+		os.Exit(0)
+	}
+	s, err := constructServer(v)
+	if err != nil {
+		fmt.Println("ERR", err)
+		os.Exit(0)
+	}
+	fmt.Printf("expiry counter=%d timer=%d gauge=%d set=%d flush-interval=%d flush-offset=%d flush-aligned=%v ignore-host=%v namespace=%q percentiles=%v histogram-limit=%d\n",
+		int64(s.ExpiryIntervalCounter), int64(s.ExpiryIntervalTimer), int64(s.ExpiryIntervalGauge), int64(s.ExpiryIntervalSet),
+		int64(s.FlushInterval), int64(s.FlushOffset), s.FlushAligned, s.IgnoreHost, s.Namespace, s.PercentThreshold, s.HistogramLimit)
+	os.Exit(0)
+}
